@@ -14,4 +14,5 @@ for d in $ids; do
   o=$(./check $id 2>&1); 
   if echo "$o" | grep -q "^VIOLATION"; then n=$(echo "$o" | grep -c "^VIOLATION"); nf=$(echo "$o" | grep -c "no-failing-input-found"); echo "$d: caught ($n violation lines, $nf without input)"; else echo "$d: MISSED"; fi
   git -C $R checkout -- .
+  git -C $V checkout -- evidence/$id.json 2>/dev/null
 done
